@@ -260,6 +260,7 @@ def run(ctx, obs, prop: str):
     a = fwd_default(ctx, obs, pre)
     b = par_live(ctx, obs, pre)
     obs.analysed['sweep_dtype_buffers'] = dtype_inherit(ctx, obs, pre + EXTRA_DTYPE_SCOPE.get(prop, []))
+    obs.analysed['sweep_inplace_div'] = inplace_division(ctx, obs, pre)
     obs.analysed['sweep_fwd_default_sites'] = a
     obs.analysed['sweep_par_live_params'] = b
     if b == 0:
@@ -359,4 +360,158 @@ def dtype_inherit(ctx, obs, prefixes: Sequence[str], rule='DTYPE') -> int:
             else:
                 obs.bad(rule, q, con, f'`{norm(st)[:80]}` takes its dtype from the input, but `{norm(bad[0])[:80]}` stores computed values: '
                         f'they are cast to the input\'s type (integers truncate, short strings clip, booleans collapse)', where(prog, f, bad[0]))
+    return n
+
+
+# ----------------------------------------------------------------------------------------------------- INPLACE-DIV
+_FLOAT_FUNCS = {'sqrt', 'mean', 'nanmean', 'std', 'nanstd', 'var', 'nanvar', 'exp', 'log', 'log2', 'log10', 'cg', 'inv', 'pinv',
+                'cholesky', 'solve', 'eigh', 'eigvalsh', 'svd', 'lstsq', 'linspace', 'true_divide', 'divide', 'rankdata', 'quantile',
+                'nanquantile', 'percentile', 'cov', 'corrcoef', 'average', 'normal', 'rand', 'randn', 'uniform', 'standard_normal',
+                'median', 'nanmedian', 'norm', 'cdist', 'pdist', 'squareform', 'float', 'float64', 'ppf', 'cdf', 'pdf', 'tanh', 'arctanh',
+                'power', 'reciprocal', 'nan_to_num', 'interp'}
+_FLOAT_ALLOC = {'zeros', 'ones', 'empty', 'eye', 'identity', 'full'}
+_INHERIT_FUNCS = {'einsum', 'dot', 'matmul', 'sum', 'nansum', 'cumsum', 'array', 'asarray', 'copy', 'reshape', 'concatenate', 'stack',
+                  'vstack', 'hstack', 'where', 'abs', 'absolute', 'maximum', 'minimum', 'clip', 'transpose', 'ravel', 'flatten', 'squeeze',
+                  'diag', 'outer', 'inner', 'tensordot', 'prod', 'max', 'min', 'amax', 'amin', 'sort', 'take', 'tile', 'repeat', 'c_', 'r_',
+                  'expand_dims', 'atleast_2d', 'atleast_1d', 'negative', 'subtract', 'add', 'multiply', 'square'}
+
+
+def _dkind(e, defs_of, depth=0) -> str:
+    """'float' (float whatever the inputs), 'inherit' (dtype follows the inputs: integer inputs give an integer array), 'unknown'"""
+    if depth > 8:
+        return 'unknown'
+    if isinstance(e, ast.Constant):
+        return 'float' if isinstance(e.value, float) else ('inherit' if isinstance(e.value, (int, bool)) else 'unknown')
+    if isinstance(e, ast.Name):
+        ds = defs_of(e)
+        if ds is None:
+            return 'inherit'      # a parameter
+        kinds = {_dkind(d, defs_of, depth + 1) if d is not None else 'unknown' for d in ds}
+        if kinds == {'float'}:
+            return 'float'
+        if 'unknown' in kinds or not kinds:
+            return 'unknown'
+        return 'inherit'          # at least one reaching definition follows the inputs
+    if isinstance(e, ast.BinOp):
+        if isinstance(e.op, ast.Div):
+            return 'float'
+        l, r = _dkind(e.left, defs_of, depth + 1), _dkind(e.right, defs_of, depth + 1)
+        if 'float' in (l, r):
+            return 'float'
+        if 'unknown' in (l, r):
+            return 'unknown'
+        return 'inherit'
+    if isinstance(e, ast.UnaryOp):
+        return _dkind(e.operand, defs_of, depth + 1)
+    if isinstance(e, (ast.Subscript, ast.Starred)):
+        return _dkind(e.value, defs_of, depth + 1)
+    if isinstance(e, ast.Attribute):
+        if e.attr in ('T', 'real', 'flat'):
+            return _dkind(e.value, defs_of, depth + 1)
+        return 'unknown'
+    if isinstance(e, ast.Call):
+        nm = _leafname(e.func)
+        dt = next((k.value for k in e.keywords if k.arg == 'dtype'), None)
+        if dt is not None:
+            t = norm(dt)
+            return 'float' if 'float' in t or t in ("'d'", "'f8'") else 'unknown'
+        if nm == 'astype' and e.args:
+            t = norm(e.args[0])
+            return 'float' if 'float' in t else 'unknown'
+        if nm in _FLOAT_FUNCS:
+            return 'float'
+        if nm in _FLOAT_ALLOC and not (isinstance(e.func, ast.Attribute) and not isinstance(e.func.value, ast.Name)):
+            return 'float'
+        if nm in _INHERIT_FUNCS:
+            args = list(e.args)
+            if isinstance(e.func, ast.Attribute) and not (isinstance(e.func.value, ast.Name) and e.func.value.id in ('np', 'numpy', 'scipy')):
+                args = [e.func.value] + args
+            ks = [_dkind(a, defs_of, depth + 1) for a in args if not (isinstance(a, ast.Constant) and isinstance(a.value, str))]
+            ks = [k for k in ks if k is not None]
+            if 'float' in ks:
+                return 'float'
+            if 'unknown' in ks or not ks:
+                return 'unknown'
+            return 'inherit'
+        return 'unknown'
+    if isinstance(e, (ast.Tuple, ast.List)):
+        ks = {_dkind(x, defs_of, depth + 1) for x in e.elts}
+        return 'float' if ks == {'float'} else ('unknown' if 'unknown' in ks else 'inherit')
+    return 'unknown'
+
+
+def inplace_division(ctx, obs, prefixes: Sequence[str], rule='INPLACE-DIV') -> int:
+    """`x /= y` writes a float quotient back into x: if x is an integer array numpy raises UFuncTypeError ("Cannot cast ufunc
+    'divide' output ... to dtype('int64')").  The target must therefore be float whatever the inputs are.  Decided by a dtype-kind
+    evaluation of the reaching definitions (`float` / `inherit` / `unknown`); only a definite `inherit` is a violation."""
+    prog = ctx.prog
+    n = 0
+    for q, f in sorted(prog.functions.items()):
+        if not _in_scope(q, prefixes):
+            continue
+        augs = [s for s in ast.walk(f.node) if isinstance(s, ast.AugAssign) and isinstance(s.op, ast.Div)]
+        if not augs:
+            continue
+        r = ctx.dep.result(q)
+        if r is None:
+            continue
+
+        def defs_of(name_node):
+            ids = r.load_defs.get(id(name_node))
+            if ids is None:
+                # not a recorded load (e.g. synthetic): fall back on all definitions of that name
+                ids = [i for i, d in r.defs.items() if d.var == name_node.id]
+            out = []
+            for i in ids:
+                d = r.defs[i]
+                if d.kind == 'param':
+                    return None if len(list(ids)) == 1 else out.append(ast.Name(id='__param__', ctx=ast.Load()))
+                if d.kind == 'aug':
+                    # x op= y keeps the kind of x unless op is a true division
+                    if isinstance(d.node, ast.AugAssign) and isinstance(d.node.op, ast.Div):
+                        out.append(ast.Constant(value=1.0))
+                    else:
+                        continue
+                elif d.kind == 'assign' and d.rhs is not None and isinstance(d.node, ast.Assign) and isinstance(d.node.targets[0], ast.Name):
+                    out.append(d.rhs)
+                else:
+                    out.append(None)
+            return out
+        for s in augs:
+            t = s.target
+            base = t
+            while isinstance(base, (ast.Subscript, ast.Attribute)):
+                base = base.value
+            if not isinstance(base, ast.Name):
+                continue
+            n += 1
+            # the value of the target just before this statement: definitions reaching the augmented assignment
+            prev_ids = None
+            for i, d in r.defs.items():
+                if d.node is s:
+                    prev_ids = r.aug_prev.get(i)
+            if prev_ids is None:
+                probe = [x for x in ast.walk(s.target) if isinstance(x, ast.Name) and x.id == base.id]
+                kinds = {_dkind(probe[0], defs_of)} if probe else {'unknown'}
+            else:
+                kinds = set()
+                for i in prev_ids:
+                    d = r.defs[i]
+                    if d.kind == 'param':
+                        kinds.add('inherit')
+                    elif d.kind == 'aug':
+                        kinds.add('float' if isinstance(d.node, ast.AugAssign) and isinstance(d.node.op, ast.Div) else 'unknown')
+                    elif d.kind == 'assign' and d.rhs is not None and isinstance(d.node, ast.Assign) and isinstance(d.node.targets[0], ast.Name):
+                        kinds.add(_dkind(d.rhs, defs_of))
+                    else:
+                        kinds.add('unknown')
+            con = f'the target of `{norm(s)[:50]}` is a float array whatever the input types'
+            if kinds == {'float'}:
+                obs.ok(rule, q, con, '', where(prog, f, s))
+            elif 'inherit' in kinds and 'unknown' not in kinds:
+                obs.bad(rule, q, con, f'`{base.id}` takes its dtype from the inputs (built only from dtype-preserving operations on the '
+                        f'arguments): for integer-typed RDMs / data the in-place division raises UFuncTypeError instead of returning the '
+                        f'value', where(prog, f, s))
+            else:
+                obs.unk(rule, q, con, f'dtype kind of `{base.id}` not determined', where(prog, f, s))
     return n
